@@ -782,7 +782,7 @@ fn cross_process(ctx: &mut Ctx) {
 
 /// serialize every history in 4 separate processes; returns the first history whose text differs
 fn cross_process_lines(lines: &[String]) -> Option<String> {
-    let dir = std::path::PathBuf::from(format!("{VERIF_DIR}/target/run"));
+    let dir = std::path::PathBuf::from(format!("{}/target/run", verif_dir()));
     let _ = std::fs::create_dir_all(&dir);
     let f = dir.join(format!("c08-hist-{}-{:x}.txt", std::process::id(), h64(&lines.to_vec())));
     std::fs::write(&f, lines.join("\n")).ok()?;
